@@ -226,7 +226,7 @@ def appendAll (cap : Nat) (d : V) : List Nat → Except Err V
 /-- `insert(position, n, x)` -/
 def insertFill (cap : Nat) (d : V) (pos n x : Nat) : Except Err (V × Nat) :=
   if pos > d.length then .error (.pre "assert_iterator_in_range")
-  else if d.length + n > cap then .error (.pre "insert: size() + n <= capacity()")
+  else if n > cap - d.length then .error (.pre "insert: n <= capacity() - size()")
   else do
     let b := d.length
     let d1 ← pushN cap d x n
